@@ -69,6 +69,21 @@ func c03Cases(c runCfg) ([]*scratch.Pkg, []string, map[string]interface{}) {
 		}
 		sets = append(sets, ts)
 	}
+	// the name of a variable is not part of a template's identity: within one document the templates name the variable at
+	// one position differently (/a/{p2}/b next to /a/{w2}/c)
+	for si := range sets {
+		ts := &sets[si]
+		if si%2 == 0 {
+			continue
+		}
+		nm := map[string][]string{}
+		for k, t := range ts.Templates {
+			nt := strings.ReplaceAll(t, "{p", "{"+[]string{"p", "w", "z"}[k%3])
+			nm[nt] = ts.Methods[t]
+			ts.Templates[k] = nt
+		}
+		ts.Methods = nm
+	}
 	var pkgs []*scratch.Pkg
 	var lines []string
 	nreq := 0
